@@ -1353,9 +1353,14 @@ class Exec:
                         raise IntegrityError("UNIQUE constraint failed: %s.%s" % (t.name, c["name"]))
 
     def new_rowid(self, t):
-        mx = t.seq if t.autoinc else 0
-        for r in t.rows:
-            mx = zmax(mx, r["__rowid__"])
+        if t.autoinc:
+            # AUTOINCREMENT: the recorded sequence value is never below a rowid of the table (it is raised by
+            # every insert, explicit rowids included; loaded pre-states assume it), so the next id is seq + 1
+            mx = t.seq
+        else:
+            mx = 0
+            for r in t.rows:
+                mx = zmax(mx, r["__rowid__"])
         nid = mx + 1
         if is_z3(nid):
             nid = S.mkint(nid)
@@ -1394,14 +1399,16 @@ class Exec:
                             n += 1
                     last = conflict["__rowid__"]
                     continue
+                fresh_id = False
             else:
                 rid = self.new_rowid(t)
+                fresh_id = True
                 if t.pk is not None:
                     row[t.pk] = rid
             row["__rowid__"] = rid
             self.check_constraints(t, row)
             if t.autoinc:
-                t.seq = zmax(t.seq, _zi(rid))
+                t.seq = _zi(rid) if fresh_id else zmax(t.seq, _zi(rid))
             t.rows.append(row)
             last = rid
             n += 1
